@@ -18,7 +18,7 @@ from ..dataflow import all_def_values, depends_on
 from ..effects import ceval, classify_call
 from ..model import AnalysisError, ClassInfo, FuncInfo, dotted, norm_stmt, unparse, walk_no_nested
 from . import c18
-from .common import QUICK, calls_in, is_sentinel_put, kwarg, parents_map
+from .common import QUICK, calls_in, is_sentinel_put, kwarg, parents_map, named_args
 
 EXPLANATION = (
     "Static analysis of the ingest pipeline on /repo's current source (sequential, multiprocessing and MPI variants "
@@ -606,7 +606,7 @@ def rule_r6(prog, res) -> None:
     kwsets = {}
     for fi, c in sites:
         res.touch(fi)
-        kws = {k.arg for k in c.keywords if k.arg} | ({"cache_directory"} if c.args else set())
+        kws = {n_ for n_, _v in named_args(c)} | ({"cache_directory"} if c.args else set())
         kwsets[fi.short] = kws
         for need in ("chunk_info", "overwrite", "buffersize"):
             v = kwarg(c, need)
